@@ -26,6 +26,17 @@ Fixpoint dec_view (s : sexp) : view :=
       | 10, [Num slot; c] => VAlloc (Z.to_nat slot) (dec_view c)
       | 11, [Num p; Num slot] => VItem (Z.to_nat p) (Z.to_nat slot)
       | 12, [Num p] => VDynL (Z.to_nat p)
+      (* constructs added by the anchor coverage audit, expressed with the existing views:
+         a context-API leaf (expect_context / with_context / update_context walk the owners
+         exactly like use_context) observes what a leaf observes; a <For> row, a component
+         calling Owner::new() and <Transition> run their children under a fresh child of the
+         ambient owner, which is what VSuspense with an empty fallback compiles to (IChild);
+         Unsuspend is a closure called when the view is rendered, like VDynL *)
+      | 14, [Num p; Num _] => VLeaf (Z.to_nat p)
+      | 17, [Num _; Num _; Num _; c] => VSuspense VText (dec_view c)
+      | 19, [Num _; Num n; c] => VSeq (repeat (VSuspense VText (dec_view c)) (Z.to_nat n))
+      | 20, [fb; c] => VSuspense (dec_view fb) (dec_view c)
+      | 21, [Num p] => VDynL (Z.to_nat p)
       | _, _ => VText
       end
   | _ => VText
